@@ -300,6 +300,37 @@ func nilness(e ssa.Value, b *ssa.BasicBlock, depth int) string {
 			if alwaysNonNil(f, depth+1) {
 				return "nonnil"
 			}
+			// wrapper: every return is non-nil or hands back a parameter whose argument is non-nil here
+			if len(f.Blocks) > 0 && f.Signature.Results().Len() == 1 {
+				ok := true
+				for _, fb := range f.Blocks {
+					r, isRet := fb.Instrs[len(fb.Instrs)-1].(*ssa.Return)
+					if !isRet {
+						continue
+					}
+					if nilness(r.Results[0], fb, depth+1) == "nonnil" {
+						continue
+					}
+					passed := false
+					v := r.Results[0]
+					if ci, isCI := v.(*ssa.ChangeInterface); isCI {
+						v = ci.X
+					}
+					if prm, isP := v.(*ssa.Parameter); isP {
+						for k, fp := range f.Params {
+							if fp == prm && k < len(x.Call.Args) && nilness(x.Call.Args[k], b, depth+1) == "nonnil" {
+								passed = true
+							}
+						}
+					}
+					if !passed {
+						ok = false
+					}
+				}
+				if ok {
+					return "nonnil"
+				}
+			}
 		}
 	case *ssa.Extract:
 		// comma-ok map lookup of an error value under its ok edge: error tables hold non-nil errors
